@@ -15,8 +15,8 @@ import types
 import enum
 
 from . import sym
-from .sym import SInt, SBool, Unsupported, is_sym, is_intlike, OPAQUE, BitLength
-from .values import (AbstractValue, SObj, BoundMethod, SuperProxy, Closure, GenObj, CoroObj, SBytes, mk_bytes, SymSet,
+from .sym import SInt, SBool, Unsupported, is_sym, is_intlike, is_boollike, OPAQUE, BitLength
+from .values import (AbstractValue, Choice, CtxGen, SObj, BoundMethod, SuperProxy, Closure, GenObj, CoroObj, SBytes, mk_bytes, SymSet,
                      class_of, contains_sym, set_interp, values_equal, next_serial)
 from .path import RaiseEx, Infeasible, PathEnd
 from .spec import And, Or, Not, ite, SpecRaise, AnyOf
@@ -84,6 +84,10 @@ LIST_MUTATORS = {"append", "extend", "insert", "pop", "remove", "clear", "sort",
 DICT_MUTATORS = {"setdefault", "update", "pop", "popitem", "clear", "__setitem__", "__delitem__"}
 SET_MUTATORS = {"add", "discard", "remove", "pop", "clear", "update", "difference_update",
                 "intersection_update", "symmetric_difference_update"}
+
+
+# value classes of the engine that stand for no Python object: a native TypeError naming one is a gap in the engine
+ENGINE_TYPE_NAMES = ("'Choice'", "'AbstractValue'", "'AddrList'", "'SFloat'", "'CtxGen'")
 
 
 class Interp:
@@ -298,7 +302,13 @@ class Interp:
             raise
         except SpecRaise:
             raise
+        except Unsupported:
+            raise
         except Exception as e:      # noqa: BLE001 - deliberate: map to the interpreted program
+            if isinstance(e, (TypeError, AttributeError)) and any(w in str(e) for w in ENGINE_TYPE_NAMES):
+                # a native operation met one of the engine's own value classes: a gap in the engine, not an exception of
+                # the verified program
+                raise Unsupported("native operation on an engine value (%s: %s)" % (type(e).__name__, e))
             raise RaiseEx(e)
 
     # ------------------------------------------------------------------ truthiness
@@ -761,7 +771,7 @@ class Interp:
         if cached is not None:
             return cached
         r = False
-        stack = list(node.body)
+        stack = list(node.body) if isinstance(node.body, list) else [node.body]      # a lambda's body is one expression
         while stack:
             n = stack.pop()
             if isinstance(n, (ast.Yield, ast.YieldFrom)):
@@ -774,6 +784,10 @@ class Interp:
         return r
 
     def call_repo_function(self, fn, args, kwargs, force_body=False):
+        w = getattr(fn, "__wrapped__", None)
+        if w is not None and fn.__code__.co_name == "helper" and fn.__code__.co_filename.endswith("contextlib.py"):
+            # @contextlib.contextmanager / @contextlib.asynccontextmanager on a repository generator function
+            return CtxGen(w, tuple(args), dict(kwargs))
         key = self.key_of(fn)
         node = self.node_of(fn)
         if self.is_generator_node(node) and not force_body:
@@ -930,6 +944,8 @@ class Interp:
         m = getattr(self, "s_" + s.__class__.__name__, None)
         if m is None:
             raise Unsupported("statement %s at %s:%d" % (s.__class__.__name__, env.qualname, s.lineno))
+        sym.STEP += 1
+        sym.WHERE = s.lineno
         try:
             return m(s, env)
         except SkipStatement:
@@ -1103,25 +1119,94 @@ class Interp:
             except ContinueEx:
                 continue
 
-    def loop_spec_for(self, env, stmt=None):
-        """sidecar loop specification keyed by (function key, ordinal of the loop in source order)"""
-        if not self.loop_specs or env.fnode is None or stmt is None:
-            return None
-        idx = getattr(env.fnode, "_loop_index", None)
+    @staticmethod
+    def _loop_index_of(fnode):
+        idx = getattr(fnode, "_loop_index", None)
         if idx is None:
             idx = {}
             n = 0
-            stack = list(reversed(env.fnode.body))
+            stack = list(reversed(fnode.body)) if isinstance(fnode.body, list) else []
             while stack:
                 x = stack.pop()
                 if isinstance(x, (ast.FunctionDef, ast.AsyncFunctionDef, ast.Lambda, ast.ClassDef)):
                     continue
                 if isinstance(x, (ast.For, ast.While, ast.AsyncFor)):
                     idx[id(x)] = n
+                    x._loop_parent = None
                     n += 1
                 stack.extend(reversed(list(ast.iter_child_nodes(x))))
-            env.fnode._loop_index = idx
-        return self.loop_specs.get((env.qualname, idx.get(id(stmt))))
+            fnode._loop_index = idx
+            fnode._loops = {}
+            for x in ast.walk(fnode):
+                if id(x) in idx:
+                    fnode._loops[idx[id(x)]] = x
+        return idx
+
+    @staticmethod
+    def _mentions(stmt, names):
+        seen = getattr(stmt, "_mentioned", None)
+        if seen is None:
+            seen = set()
+            for x in ast.walk(stmt):
+                if isinstance(x, ast.Name):
+                    seen.add(x.id)
+                elif isinstance(x, ast.Attribute):
+                    seen.add(x.attr)
+            stmt._mentioned = seen
+        return all(n in seen for n in names)
+
+    def _spec_home_intact(self, key, spec):
+        """does the function the specification was written against still hold, at that ordinal, a loop that mentions
+        the specification's anchor names?"""
+        cache = self.__dict__.setdefault("_home_intact", {})
+        if key in cache:
+            return cache[key]
+        ok = False
+        try:
+            modname, qual = key[0].split(":")
+            obj = sys.modules.get(modname)
+            for part in qual.split("."):
+                obj = obj.__dict__[part] if isinstance(obj, type) else getattr(obj, part)
+            obj = getattr(obj, "__func__", obj)
+            fnode = self.node_of(obj)
+            self._loop_index_of(fnode)
+            loop = fnode._loops.get(key[1])
+            ok = loop is not None and self._mentions(loop, spec.anchor)
+        except Exception:       # noqa: BLE001
+            ok = False
+        cache[key] = ok
+        return ok
+
+    def loop_spec_for(self, env, stmt=None):
+        """sidecar loop specification keyed by (function key, ordinal of the loop in source order).  A specification
+        may also name anchors (identifiers the loop's text mentions): when the loop has been moved out of the function
+        it was written against (extracted into a helper, say), the innermost loop mentioning all anchors in whatever
+        function is being executed gets the specification instead.  A specification that then does not fit makes the
+        unit undecided (loops.LoopSpec.execute), never a violation."""
+        if not self.loop_specs or env.fnode is None or stmt is None:
+            return None
+        idx = self._loop_index_of(env.fnode)
+        spec = self.loop_specs.get((env.qualname, idx.get(id(stmt))))
+        if spec is not None and (not getattr(spec, "anchor", None) or self._mentions(stmt, spec.anchor)):
+            return spec
+        for key, spec in self.loop_specs.items():
+            anchor = getattr(spec, "anchor", None)
+            if not anchor or not self._mentions(stmt, anchor):
+                continue
+            if any(self._mentions(stmt, (a,)) for a in getattr(spec, "avoid", ())):
+                continue
+            if self._spec_home_intact(key, spec):
+                continue
+            # the innermost loop of this function that mentions the anchors
+            inner = False
+            for other in env.fnode._loops.values():
+                if other is not stmt and self._mentions(other, anchor) and any(x is other for x in ast.walk(stmt)):
+                    inner = True
+                    break
+            if not inner:
+                sym.ctx().ex.relocated[spec.name] = "%s:%d instead of %s loop %d" % (env.qualname, stmt.lineno, key[0], key[1])
+                return spec
+        return None
 
     def exec_loop_with_spec(self, s, env, spec):
         return spec.execute(self, s, env)
@@ -1217,11 +1302,54 @@ class Interp:
             self.py_raise(TypeError, "catching classes that do not inherit from BaseException is not allowed")
         return issubclass(cls, t)
 
+    def with_ctxgen(self, cm, target, body, env):
+        """`with cm() as x: BODY` for a generator-based context manager: the generator's body is run in line and BODY
+        is executed at its (single) yield; an exception of BODY is raised at that yield, as contextlib does with
+        throw(); return / break / continue in BODY resume the generator normally and take effect afterwards"""
+        state = {"n": 0, "pending": None}
+        outer = self.yield_handler
+
+        def handler(v, guard=None):
+            if guard is not None:
+                raise Unsupported("conditional yield in a context-manager generator")
+            state["n"] += 1
+            if state["n"] > 1:
+                self.py_raise(RuntimeError, "generator didn't stop")
+            if target is not None:
+                self.assign(target, v, env)
+            self.yield_handler = outer
+            try:
+                body()
+            except (ReturnEx, BreakEx, ContinueEx) as cf:
+                state["pending"] = cf
+            finally:
+                self.yield_handler = handler
+            return None
+        self.yield_handler = handler
+        try:
+            self.call_repo_function(cm.func, cm.args, cm.kwargs, force_body=True)
+        finally:
+            self.yield_handler = outer
+        if state["n"] == 0:
+            self.py_raise(RuntimeError, "generator didn't yield")
+        if state["pending"] is not None:
+            raise state["pending"]
+
     def s_With(self, s, env):
+        if len(s.items) == 1:
+            cm0 = self.ev(s.items[0].context_expr, env)
+            if isinstance(cm0, CtxGen):
+                return self.with_ctxgen(cm0, s.items[0].optional_vars, lambda: self.exec_block(s.body, env), env)
+            return self.with_plain(s, env, cm0)
+        return self.with_plain(s, env, None)
+
+    def with_plain(self, s, env, cm0):
         exits = []
         try:
-            for item in s.items:
-                cm = self.ev(item.context_expr, env)
+            for i, item in enumerate(s.items):
+                cm = cm0 if (i == 0 and cm0 is not None) else self.ev(item.context_expr, env)
+                if isinstance(cm, CtxGen):
+                    raise Unsupported("generator-based context manager among several in one with statement")
                 enter = self.get_attr(cm, "__enter__")
                 exit_ = self.get_attr(cm, "__exit__")
                 v = self.call(enter, (), {})
@@ -1252,9 +1380,16 @@ class Interp:
 
     def s_AsyncWith(self, s, env):
         entered = []
+        cm0 = None
+        if len(s.items) == 1:
+            cm0 = self.ev(s.items[0].context_expr, env)
+            if isinstance(cm0, CtxGen):
+                return self.with_ctxgen(cm0, s.items[0].optional_vars, lambda: self.exec_block(s.body, env), env)
         try:
-            for item in s.items:
-                cm = self.ev(item.context_expr, env)
+            for i, item in enumerate(s.items):
+                cm = cm0 if (i == 0 and cm0 is not None) else self.ev(item.context_expr, env)
+                if isinstance(cm, CtxGen):
+                    raise Unsupported("generator-based context manager among several in one async with statement")
                 if not hasattr(cm, "aenter"):
                     raise Unsupported("async with on %r" % (type(cm).__name__,))
                 v = cm.aenter()
@@ -1340,11 +1475,14 @@ class Interp:
                 return
         env.locals[name] = v
 
-    def load_name(self, name, env):
+    def load_name(self, name, env, raw=False):
         e = env
         while e is not None:
             if name in e.locals:
-                return e.locals[name]
+                v = e.locals[name]
+                if isinstance(v, Choice) and not raw:
+                    v = self.resolve_choice(v)
+                return v
             e = e.parent
         if name in env.cells:
             return env.cells[name]
@@ -1420,7 +1558,10 @@ class Interp:
         return n.value
 
     def e_Name(self, n, env):
-        return self.load_name(n.id, env)
+        v = self.load_name(n.id, env, raw=True)
+        if isinstance(v, Choice) and not self.choice_ok(n, env):
+            v = self.resolve_choice(v)
+        return v
 
     def e_Tuple(self, n, env):
         out = []
@@ -1462,9 +1603,77 @@ class Interp:
         return Closure(n, env, env.globals_, env.owner, defaults, kwd, env.qualname + ".<lambda>")
 
     def e_IfExp(self, n, env):
-        if self.test(self.ev(n.test, env)):
+        t = self.truth(self.ev(n.test, env))
+        if not isinstance(t, bool) and self.choice_ok(n, env) and self.plain_operand(n.body) and self.plain_operand(n.orelse):
+            a = self.ev(n.body, env)
+            b = self.ev(n.orelse, env)
+            if a is b:
+                return a
+            if (is_boollike(a) and is_boollike(b)) or (is_intlike(a) and is_intlike(b)
+                                                       and not is_boollike(a) and not is_boollike(b)):
+                return ite(t, a, b)
+            if isinstance(a, Choice) or isinstance(b, Choice):
+                return self.resolve_choice(a) if self.test(t) else self.resolve_choice(b)
+            return Choice(t, a, b)
+        if self.test(t):
             return self.ev(n.body, env)
         return self.ev(n.orelse, env)
+
+    # ------------------------------------------------------------------ unforked choice between two values
+    @staticmethod
+    def plain_operand(node):
+        """side-effect free and cheap: a name, a dotted name or a constant"""
+        while isinstance(node, ast.Attribute):
+            node = node.value
+        return isinstance(node, (ast.Name, ast.Constant))
+
+    def choice_ok(self, node, env):
+        """may the value of this expression stay an unresolved Choice?  Only where the interpreter knows what to do
+        with one: bound to a local name, called, or yielded."""
+        fnode = env.fnode
+        if fnode is None:
+            return False
+        if not getattr(fnode, "_parents_set", False):
+            for p in ast.walk(fnode):
+                for c in ast.iter_child_nodes(p):
+                    c._parent = p
+            fnode._parents_set = True
+        p = getattr(node, "_parent", None)
+        if isinstance(p, ast.Assign):
+            return p.value is node and len(p.targets) == 1 and isinstance(p.targets[0], ast.Name)
+        if isinstance(p, ast.Call):
+            return p.func is node
+        if isinstance(p, ast.Yield):
+            return p.value is node
+        return False
+
+    def resolve_choice(self, v):
+        while isinstance(v, Choice):
+            v = v.a if self.test(v.cond) else v.b
+        return v
+
+    def call_choice(self, n, env, f, args, kwargs):
+        """ite(c, A, B)(args): each alternative is called under its condition (as an if-converted region)"""
+        missing = object()
+        out = []
+        for cond, alt in ((f.cond, f.a), (Not(f.cond), f.b)):
+            alt = self.resolve_choice(alt)
+            self.guards.append((cond, next_serial(), env))
+            try:
+                out.append(self.call(alt, list(args), dict(kwargs)))
+            except RaiseEx:
+                # raised exactly on the executions where this alternative is the one called
+                if self.test(self.guard()):
+                    raise
+                out.append(missing)
+            finally:
+                self.guards.pop()
+        if out[0] is missing:
+            return out[1]           # the path now carries "not cond"
+        if out[1] is missing or out[0] is out[1]:
+            return out[0]
+        r = Choice(f.cond, out[0], out[1])
+        return r if self.choice_ok(n, env) else self.resolve_choice(r)
 
     def e_NamedExpr(self, n, env):
         v = self.ev(n.value, env)
@@ -1806,6 +2015,8 @@ class Interp:
                 if isinstance(a, SObj):
                     pass
             return None
+        if isinstance(f, Choice):
+            return self.call_choice(n, env, f, args, kwargs)
         return self.call(f, args, kwargs)
 
     def e_JoinedStr(self, n, env):
@@ -1902,6 +2113,15 @@ class Interp:
         if self.yield_handler is None:
             raise Unsupported("yield outside a sequence environment")
         g = self.guard()
+        if isinstance(v, Choice):
+            # `yield ite(c, X, Y)` is `if c: yield X else: yield Y`
+            r = []
+            for cond, alt in ((v.cond, v.a), (Not(v.cond), v.b)):
+                alt = self.resolve_choice(alt)
+                r.append(self.yield_handler(alt, cond if g is None else And(g, cond)))
+            if r[0] is r[1]:
+                return r[0]
+            return r[0] if self.test(v.cond) else r[1]
         if g is not None:
             return self.yield_handler(v, g)
         return self.yield_handler(v)
